@@ -257,3 +257,36 @@ Theorem C01_static_source_renders_itself : forall (T : retab) (E : penv) flits l
                   wr_bytes w' = wr_bytes w ++ s /\ w_fail w' = None.
 Proof. exact static_source_renders_itself. Qed.
 Print Assumptions C01_static_source_renders_itself.
+
+(* ---- the source clean-up of the parser model, for every table of expressions
+        (Proofs/ParserCleanup.v): whatever the comment and format expressions of the code are,
+        the clean-up only ever deletes bytes; without a comment and with the format kept it is
+        the identity, and a source without comments and tags is parsed to itself ---- *)
+From DT Require Import Proofs.ParserCleanup.
+
+Theorem C01_parser_cleanup_only_deletes : forall (T : retab) keep s,
+  subseq (preprocess_re T keep s) s.
+Proof. exact preprocess_re_sublist. Qed.
+Print Assumptions C01_parser_cleanup_only_deletes.
+
+Theorem C01_parser_cleanup_identity : forall (T : retab) s,
+  re_find (t_reCutComments T) s = None -> preprocess_re T true s = s.
+Proof. exact preprocess_re_identity. Qed.
+Print Assumptions C01_parser_cleanup_identity.
+
+Theorem C01_source_without_comments_and_tags : forall (T : retab) (E : penv) s,
+  re_find (t_reCutComments T) s = None -> find2 "{"%byte "%"%byte s = None ->
+  parse T E true s = POk (match s with [] => [] | _ => [NRaw s] end).
+Proof. exact parse_keepfmt_static. Qed.
+Print Assumptions C01_source_without_comments_and_tags.
+
+(* deleting the matches of ANY expression yields a sub-sequence of the text, and the text itself
+   when nothing matches; the scan never stops for lack of fuel *)
+Theorem C01_delete_matches_sublist : forall r s, subseq (delete_all r s) s.
+Proof. exact delete_all_sublist. Qed.
+Print Assumptions C01_delete_matches_sublist.
+
+Theorem C01_delete_matches_fuel : forall r s f pos, (length s < f)%nat ->
+  delete_all_go f r s pos = delete_all_go (S (length s)) r s pos.
+Proof. exact delete_all_fuel. Qed.
+Print Assumptions C01_delete_matches_fuel.
